@@ -66,6 +66,33 @@ def alloc_scenarios(rng, n, length):
     return scs
 
 
+def grow_then_create_scenarios(rng, n):
+    """an area is grown (mem_resize_section) and a new area is then requested inside the extent it grew into - the highest area
+    included: the request must be refused whatever bookkeeping the allocator keeps about "the highest address so far" """
+    scs = []
+    for k in range(n):
+        b = mc.Builder(f"gtc{k}")
+        # below the code area, or above everything that exists (the constructor's code area included)
+        lo = (BASE if rng.random() < 0.4 else 0x200000) + rng.choice([0, 16, 64])
+        l0 = rng.choice([4, 8, 16])
+        if rng.random() < 0.3:
+            b.api(op="mem_init_zero", start=lo + 0x100, len=8)              # something higher exists / does not exist
+        b.api(op="mem_init_area", start=lo, data=[rng.randrange(1, 256) for _ in range(l0)])
+        grown = l0 + rng.choice([4, 8, 24])
+        b.api(op="mem_resize_section", start=lo, new=grown)
+        st = lo + rng.choice([l0, l0 + 1, grown - 1, l0 + 2])
+        ln = rng.choice([1, 4, 8, 32])
+        if rng.random() < 0.5:
+            b.api(op="mem_init_zero", start=st, len=ln)
+        else:
+            b.api(op="mem_init_area", start=st, data=[rng.randrange(1, 256) for _ in range(ln)])
+        b.api(op="mem_write_bytes", addr=lo + l0, data=[0x77, 0x78])
+        b.api(op="mem_read_bytes", addr=lo, len=grown)
+        b.api(op="mem_init_zero", start=lo + grown, len=4)                 # directly behind the grown area: free
+        scs.append(b.scenario())
+    return scs
+
+
 def run(tier, seed):
     rep = vlib.Report(PROP, tier, seed, "model_checking")
     rng = random.Random(seed)
@@ -88,7 +115,7 @@ def run(tier, seed):
         sc1 = c08.edge_scenarios(edges)
         n1, s1, _ = mc.validate(sc1, wd, "edges", rep, 8)
         q = tier == "quick"
-        sc2 = alloc_scenarios(rng, 400 if q else 30000, 10 if q else 16)
+        sc2 = alloc_scenarios(rng, 400 if q else 30000, 10 if q else 16) + grow_then_create_scenarios(rng, 60 if q else 3000)
         n2, s2, _ = mc.validate(sc2, wd, "alloc", rep, 8 if q else 14)
         kinds = {(a["op"], a.get("len", len(a.get("data", []) if isinstance(a.get("data"), list) else [])) == 0,
                   isinstance(a.get("start"), dict)) for s in sc1 + sc2 for a in s["actions"]}
